@@ -1046,6 +1046,53 @@ impl<'r> Gen<'r> {
         if masked {
             self.no_assign.pop();
         }
+        // compound assignment whose index is a mutable variable: the value sometimes reassigns that
+        // variable (the place must still be the one the old index denotes, read and written once)
+        let mut value = value;
+        if op.is_some() && self.in_head == 0 {
+            let muts: Vec<String> = self.visible_vars().into_iter().filter(|x| x.mutable && x.ty == Ty::Int(ints::USIZE)).map(|x| x.name).collect();
+            let idx_var = accs.iter().find_map(|a| match a {
+                Acc::Index(i) => match &i.kind {
+                    ExprKind::Var(n) if muts.contains(n) => Some(n.clone()),
+                    _ => None,
+                },
+                _ => None,
+            });
+            if let Some(n) = idx_var {
+                if self.rng.chance(1, 2) {
+                    self.note("compound-assignment-whose-value-reassigns-its-index");
+                    let vty = value.ty.clone();
+                    let set = Stmt::new(StmtKind::Assign { var: n, accs: vec![], op: None, value: lit_int(ints::USIZE, self.rng.below(2) as i128), target_ty: Ty::Int(ints::USIZE) });
+                    value = e(ExprKind::Block(Block { stmts: vec![set], tail: Some(Box::new(value)) }), vty);
+                }
+            }
+        }
+        // ... or the literal index of a compound assignment is moved into a fresh mutable variable that
+        // the value then reassigns: `{ let mut j: usize = 1usize; x[j] op= { j = 0usize; v }; }`
+        if op.is_some() && self.in_head == 0 && self.rng.chance(1, 5) {
+            let mut accs = accs;
+            let lit_pos = accs.iter().position(|a| matches!(a, Acc::Index(i) if matches!(i.kind, ExprKind::Lit(_))));
+            if let Some(pos) = lit_pos {
+                self.note("compound-assignment-whose-value-reassigns-its-index");
+                let mut j = self.fresh("m");
+                while self.visible_vars().iter().any(|x| x.name == j) {
+                    j = self.fresh("m");
+                }
+                let Acc::Index(old_idx) = std::mem::replace(&mut accs[pos], Acc::Index(e(ExprKind::Var(j.clone()), Ty::Int(ints::USIZE)))) else { unreachable!() };
+                let vty = value.ty.clone();
+                let set = Stmt::new(StmtKind::Assign { var: j.clone(), accs: vec![], op: None, value: lit_int(ints::USIZE, self.rng.below(2) as i128), target_ty: Ty::Int(ints::USIZE) });
+                let value = e(ExprKind::Block(Block { stmts: vec![set], tail: Some(Box::new(value)) }), vty);
+                let block = Block {
+                    stmts: vec![
+                        Stmt::new(StmtKind::LetMut(j, Ty::Int(ints::USIZE), old_idx, true)),
+                        Stmt::new(StmtKind::Assign { var: v.name, accs, op, value, target_ty: cur }),
+                    ],
+                    tail: None,
+                };
+                return Some(Stmt::new(StmtKind::Expr(e(ExprKind::Block(block), Ty::unit()))));
+            }
+            return Some(Stmt::new(StmtKind::Assign { var: v.name, accs, op, value, target_ty: cur }));
+        }
         Some(Stmt::new(StmtKind::Assign { var: v.name, accs, op, value, target_ty: cur }))
     }
 
@@ -1519,12 +1566,28 @@ impl<'r> Gen<'r> {
         self.mult = saved_mult;
         self.scopes.pop();
         self.note("for-join");
-        stmts.push(Stmt::new(StmtKind::ForJoin {
-            pat,
-            a: e(ExprKind::Var("a".into()), ta.clone()),
-            b: e(ExprKind::Var("b".into()), tb.clone()),
-            body,
-        }));
+        // the joined arrays are sometimes given as block expressions that can fail before the loop
+        // starts (smallest key of a divided by / reduced by the smallest key of b)
+        let mut head_a = e(ExprKind::Var("a".into()), ta.clone());
+        let mut head_b = e(ExprKind::Var("b".into()), tb.clone());
+        if let Ty::Int(kt) = &key {
+            if self.rng.chance(1, 3) {
+                self.note("for-join-with-failing-head");
+                let first_key = |arr: &str, aty: &Ty, ety: &Ty| -> Expr {
+                    let el = e(ExprKind::Index(Box::new(e(ExprKind::Var(arr.into()), aty.clone())), Box::new(lit_int(ints::USIZE, 0))), ety.clone());
+                    e(ExprKind::TupleField(Box::new(el), 0), Ty::Int(*kt))
+                };
+                let op = if self.rng.bool() { BinOp::Div } else { BinOp::Sub };
+                let probe = e(ExprKind::Bin(op, Box::new(first_key("a", &ta, &ea)), Box::new(first_key("b", &tb, &eb))), Ty::Int(*kt));
+                let stmt = Stmt::new(StmtKind::Let(Pat::Bind("_".into()), Ty::Int(*kt), probe, true));
+                if self.rng.bool() {
+                    head_a = e(ExprKind::Block(Block { stmts: vec![stmt], tail: Some(Box::new(head_a)) }), ta.clone());
+                } else {
+                    head_b = e(ExprKind::Block(Block { stmts: vec![stmt], tail: Some(Box::new(head_b)) }), tb.clone());
+                }
+            }
+        }
+        stmts.push(Stmt::new(StmtKind::ForJoin { pat, a: head_a, b: head_b, body }));
         let items: Vec<Expr> = accs.iter().map(|(n, t)| e(ExprKind::Var(n.clone()), t.clone())).collect();
         let (tail, ret) = if items.len() == 1 {
             let t = items[0].ty.clone();
